@@ -16,6 +16,13 @@ func TestReplay(t *testing.T) { vt.ReplayAll(t) }
 // TestKnownFindings re-confirms the listed finding KnownResetRUB from its recorded case (a reset op on a node that
 // removes untraceable blocks, which the generator does not draw while the finding is listed).
 func TestKnownFindings(t *testing.T) {
+	probeKnown(t, KnownResetRUB)
+	strictKnown = true
+	defer func() { strictKnown = false }()
+	probeKnown(t, KnownResetConflictLost)
+}
+
+func probeKnown(t *testing.T, KnownResetRUB string) {
 	if !vt.Known(KnownResetRUB) {
 		t.Logf("%s: not listed as known: TestProp generates the shape itself", KnownResetRUB)
 		return
